@@ -168,6 +168,9 @@ def run(ctx: core.Ctx):
               T.FullStateTomographyFitter.expectation_values, T.stabilizer_measurement_circuit, T.full_state_tomography_circuits):
         ctx.under_contract(f)
     ctx.selfcheck["oracle_gate_rules_checked_densely"] = P.selftest()
+    from ..contracts import pipeline as _pl
+    from .. import symrun as _sr
+    _sr.run(ctx, _pl.tomography_glue_tasks(), label="tomography-glue")      # density_matrix() = linear inversion of expectation_values(), for every input
     t = time.time()
     fam = ctx.family("C11.marginal.post", GROUND, "native")
     fam.exhaustive = True
